@@ -767,7 +767,46 @@ func TestEngineStaking(t *testing.T) {
 		}
 	}
 
+	// a view on a state the module's own hooks did not prepare: a delegation whose distribution starting info is missing
+	// (state imported or migrated without running the staking hooks).  Whatever the view answers — the SDK panics for it,
+	// the call fails — it is declared read-only: no store may change (C12: "methods declared read-only never write state in
+	// any context")
+	checkViewOnUnpreparedState := func() {
+		for _, who := range []int{1, 2, 3} {
+			for _, v := range valIDs {
+				if delegated(who, v).Sign() <= 0 {
+					continue
+				}
+				ctxU, _ := base.CacheContext()
+				if err := dk.DeleteDelegatorStartingInfo(ctxU, valAddr[v], addrs[who].Bytes()); err != nil {
+					return
+				}
+				before := dumpStores(ctxU, keys, allStores)
+				func() {
+					defer func() { _ = recover() }()
+					_, _ = evmCall(ctxU, addrs[2], stk, packStk("rewardOf", addrs[who], common.BytesToAddress(valAddr[v])))
+				}()
+				after := dumpStores(ctxU, keys, allStores)
+				var d []string
+				for _, x := range diffDumps(before, after) {
+					if strings.Contains(x, " acc/") || strings.Contains(x, " auth/") {
+						continue
+					}
+					d = append(d, x)
+				}
+				p.Count("view:rewardOf:unprepared-state")
+				if len(d) > 0 {
+					p.Oracle("C12-readonly-method-writes", "view=rewardOf who=%d val=%d on a delegation without distribution starting info changed %d store entries, first=%s", who, v, len(d), strings.Join(firstK(d, 3), ";"))
+				}
+				return
+			}
+		}
+	}
+
 	for i := 0; i < n; i++ {
+		if i%97 == 41 {
+			checkViewOnUnpreparedState()
+		}
 		caller := hx.Pick(r, callers)
 		bal := bk.GetBalance(base, addrs[caller].Bytes(), bond).Amount.BigInt()
 		if bal.Cmp(one) < 0 && r.Chance(1, 2) {
